@@ -94,7 +94,7 @@ def handwritten(src, k, method):
     return "# hand-written source of truth\nTRUTH_MARKER = 'kept'\n\n" + ast.unparse(tree) + "\n"
 
 
-def run_sync(paths, truth, method, given, style="abs", nested=False):
+def run_sync(paths, truth, method, given, style="abs", nested=False, cli=False, extra=None):
     """API call exactly as __main__ builds it. `given`: kinds whose file is passed. `style`: how the files are spelled on
     the "command line" (absolute, relative to the cwd, through a symlinked directory); the truth file is passed
     canonicalised, as __main__ does."""
@@ -112,7 +112,7 @@ def run_sync(paths, truth, method, given, style="abs", nested=False):
         spell = lambda p: os.path.join(link, os.path.basename(p))
     ns = {}
     for k in KIND_KEYS:
-        ns[plural(k)] = [spell(paths[k])] if k in given else []
+        ns[plural(k)] = ([spell(paths[k])] if k in given else []) + [spell(p) for p in (extra or {}).get(k, [])]
         ns[k + "_names"] = [target_name(k, method, nested)]
     ns["truth"] = truth
     out = io.StringIO()
@@ -121,7 +121,19 @@ def run_sync(paths, truth, method, given, style="abs", nested=False):
         if style == "relative":
             os.chdir(d)
         with contextlib.redirect_stdout(out), contextlib.redirect_stderr(io.StringIO()):
-            res = ground_truth(Namespace(**ns), os.path.realpath(paths[truth]))
+            if cli:
+                # the command line itself: argv -> argparse -> validation -> ground_truth
+                from doctrans.__main__ import main
+
+                flag = {"argparse_function": "--argparse-function", "class": "--class", "function": "--function"}
+                argv = ["sync", "--truth", truth]
+                for k in KIND_KEYS:
+                    for f in ns[plural(k)]:
+                        argv += [flag[k], f]
+                    argv += [flag[k] + "-name", ns[k + "_names"][0]]
+                res = main(argv)
+            else:
+                res = ground_truth(Namespace(**ns), os.path.realpath(paths[truth]))
     finally:
         os.chdir(cwd)
         if link is not None and os.path.islink(link):
